@@ -72,9 +72,26 @@ namespace ip {
 		ec.clear();
 	}
 
+	void tcp::acceptor::open(tcp protocol, boost::system::error_code& ec)
+	{
+		// re-opening an acceptor stops listening and forgets queued connections
+		close(ec);
+		socket::open(protocol, ec);
+	}
+
+	void tcp::acceptor::open(tcp protocol)
+	{
+		boost::system::error_code ec;
+		open(protocol, ec);
+		if (ec) throw boost::system::system_error(ec);
+	}
+
 	void tcp::acceptor::close(boost::system::error_code& ec)
 	{
 		m_queue_size_limit = -1;
+		// connection attempts that were queued for this binding must not be
+		// handed to whoever listens on this object next
+		m_incoming_conns.clear();
 		cancel(ec);
 		socket::close(ec);
 	}
